@@ -25,6 +25,7 @@ RULE = ('cases = (a) exhaustive: causal Conv1d with kernel 1..12 x initial dilat
         'Non-trivial: at least one masker fully pruned (all elements below threshold) or holding '
         'an extreme value; distinct = hash of (program, assignment).')
 RULE += ("  Round 3: heads of two classifiers concatenated into the output; the output returned as y, (y,), [y] or {'logits': y}.")
+RULE += ("  Round 5: per-axis conv geometry; padding='valid' as a string; nested concat heads.")
 ASSUMPTIONS = [
     'NaN/inf are not real values and are not assigned',
     'frozen (strided) time maskers are not assigned: an optimiser cannot reach them (C11)',
